@@ -43,3 +43,7 @@ add("C03", "enumeration of (algorithm, N) against a first-principles spherical V
     "Every N in 4..64 plus level boundaries and seeded N to 400 (thorough: every N in 4..400 and samples to 1000) for ico, cube3D, randomS. For every pair (i,j) the bisector great circle is clipped by all other points in closed form; adjacency must equal 'arc length > 0' (grey zone 1e-12..1e-7 not judged, empty so far), border == arc length (2e-8), distance == great-circle angle (1e-12), area == sum of atan2 triangle areas (rtol 1e-9), areas > 0 summing to 4 pi, symmetry, empty diagonal, one pattern and entry order. Degenerate polytope grids (>=4 cells per vertex) are counted as a class.",
     "Trusted: numpy; the 60-line oracle in vlib/geom.py with closed-form self-tests (tetrahedron, octahedron, cube).",
     "DESIGN.md section 5, C03")
+add("C05", "Hypothesis-generated (direction grid, radial text) pairs against the closed formulas evaluated with the independent spherical oracle",
+    "Hundreds (thorough: 4 800) of generated position grids (three algorithms, N in 4..60 / 200, T in 2..6 radii in list / tuple / linspace / range syntax, non-uniform spacing): every cell volume (rtol 1e-10), every entry of the dense adjacency, border and distance matrices (exact pattern: radial +-n_o and same-shell spherical neighbours only; rtol 1e-9 plus the arc tolerance of C03) and the three sum rules are compared with the statement's formulas, with R_k from exact rational radii and area/arc/angle from vlib.geom.s2_voronoi rather than from the library.",
+    "Trusted: numpy, fractions, the S^2 clipping oracle (self-tested).",
+    "DESIGN.md section 5, C05")
